@@ -12,7 +12,7 @@ META = dict(
     explanation='The real rxsci.data.codec encode/decode operators run over pure-Python incremental codec models (contract stubs, validated against CPython\'s codecs on a boundary alphabet x every cut at the start of every run). '
                 'Strings are lists of symbolic code points over the whole Unicode range minus surrogates (astral, combining, U+FEFF are just values of the variables); the string list has a concrete shape (lengths per item, empty strings included); '
                 'the encoded byte stream is cut at two positions (first concrete per obligation, second solver-chosen; inside multi-byte sequences) and decoded: the concatenation of decoded strings must equal the concatenation of the originals, '
-                'the encoder must emit one chunk per item plus a final flush, a second subscription of the same encode / decode pipeline must behave like the first (fresh codec state per subscription), decode must finish without error, and for utf-16/utf-32 the byte-order mark must appear exactly once at the start.',
+                'the encoder must emit one chunk per item plus a final flush, a second subscription of the same encode / decode pipeline must behave like the first (fresh codec state per subscription), decode must finish without error, and for utf-16/utf-32 the byte-order mark must appear exactly once at the start. The decode step as json.load_from_file composes it (read chunks -> decode -> unframe -> load) is exercised with the C19 harness and a read boundary at every byte position.',
     bounds=dict(quick='<= 2 strings, <= 2 code points in total, 2 cuts; utf-8, utf-16, utf-32, latin-1 (code points <= 0xFF)', thorough='<= 3 strings, <= 3 code points in total'),
     outside='CPython\'s codec implementations themselves (replaced by validated models); incremental=False (each item independent, documented as such); more code points than the bound',
     assumptions=['codecs.getincrementalencoder/decoder behave as vp/stubs/codecs_model.py (validated against CPython at run start)'],
@@ -93,7 +93,14 @@ def stub_valid(p):
     return run
 
 
-FAMILIES = {'roundtrip': roundtrip, 'stub_valid': stub_valid}
+def json_path(p):
+    """the decode step as rxsci.container.json.load_from_file composes it (file.read chunks -> decode -> line.unframe -> load): the harness of C19 with a short read
+    at a given byte position, here for multi-byte characters cut by the read boundary"""
+    from vp.props import C19
+    return C19.file_rt(dict(lens=p['lens'], compression=None, c1=p['c1'], as_bytes=True))
+
+
+FAMILIES = {'roundtrip': roundtrip, 'stub_valid': stub_valid, 'json_path': json_path}
 WIDTH = {'utf-8': 4, 'utf-16': 4, 'utf-32': 4, 'latin-1': 1}
 
 
@@ -111,6 +118,8 @@ def obligations(tier, seed):
                     continue
                 obs.append(Ob(PROP, 'roundtrip', dict(enc=enc, lens=lens, c1=c1, maxbytes=maxb), budget=b, group='roundtrip:' + enc,
                               bound=dict(encoding=enc, code_points_per_string=lens, first_cut=c1, second_cut='symbolic')))
+    for c1 in range(1, 13 if q else 17):
+        obs.append(Ob(PROP, 'json_path', dict(lens=[1, 1], c1=c1), budget=b, group='json_path', bound=dict(object_chars=[1, 1], short_read_at=c1, encoding='utf-8 through json.load_from_file')))
     obs.append(Ob(PROP, 'roundtrip', dict(enc='utf-8', lens=[1, 1], c1=1, maxbytes=8, default=True), budget=b, group='roundtrip:utf-8', bound=dict(encoding='default arguments', code_points_per_string=[1, 1])))
     obs.append(Ob(PROP, 'roundtrip', dict(enc='utf-8', lens=[1, 1], c1=2, maxbytes=8, _twin='reach'), budget=60, expect='refute'))
     return obs
